@@ -117,12 +117,28 @@ def run(ctx):
             continue
         cid, kv = parse_kv_line(line)
         kind = kv.get("kind")
-        if kind not in ("L", "R", "H", "M", "N"):
+        if kind not in ("L", "R", "H", "M", "N", "K"):
             continue
         evals += 1
         kinds[kind] += 1
         spec = specs.get(cid, "")
         corr = kv.get("corr", "?")
+        if kind == "K":
+            judge_eval += 1
+            multi["locals_compared"] += 1
+            if corr == "ok":
+                multi["locals_equal"] += 1
+            else:
+                report_corr(cid, kv, "model mergeLocals (scope_stack / definitions / references / non-local patterns) and the real single-layer event stream disagree",
+                            "mergeLocals=HighlightIter::next")
+            if kv.get("wf") != "ok":
+                report_judge(cid, kv, "events-wellformed", "event stream (layer with locals) is not well formed")
+            if kv.get("err", "-") != "-":
+                report_judge(cid, kv, "highlight-error", "Highlighter::highlight returned an error: " + kv["err"])
+            if int(kv.get("ndef", "0") or 0) >= 1 and int(kv.get("nref", "0") or 0) >= 1:
+                dist["K:with-definitions-and-references"] += 1
+                distinct.add(hashlib.sha1(spec.encode()).hexdigest())
+            continue
         if kind == "N":
             judge_eval += 1
             multi["compared"] += 1
@@ -258,6 +274,7 @@ def run(ctx):
         "judge_failures_by_clause_and_cause": dict(causes),
         "correspondence": {"compared": evals + kinds["L"], "equal": evals + kinds["L"] - corr_bad},
         "correspondence_merge_multi": {"compared": multi["compared"], "equal": multi["equal"]},
+        "correspondence_merge_locals": {"compared": multi["locals_compared"], "equal": multi["locals_equal"]},
         "correspondence_intersect_ranges": {"compared": multi["ir_compared"], "equal": multi["ir_equal"], "of_which_against_the_real_private_function": multi["ir_real"],
                                             "how": "Lean intersectRanges vs the ranges the harness fed to the layers whose real event stream was then reproduced exactly"},
         "judge": {"evaluated": judge_eval, "passed": judge_eval - judge_bad},
